@@ -27,7 +27,7 @@ def q(x):
 def truth(rng):
     n = rng.choice([0, 1, 3, 5])
     Ts = sorted(rng.sample([100.0, 200.0, 300.0, 400.0, 500.0, 700.0, 1000.0, 1500.0], n))
-    t = {'T_ref': rng.choice([298.15, 298.0, 300.0]),
+    t = {'T_ref': rng.choice([298.15, 298.0, 300.0, 298.15, 298.12, 299.96, 298.04]),
          'H': rng.choice([0.0, 0, round(rng.uniform(-3e5, 2e5), 1), -41840.0, None]),
          'S': rng.choice([0.0, round(rng.uniform(-50, 300), 3), 4.184, None]),
          'tab': [(T, rng.choice([0.0, round(rng.uniform(-5, 90), 3)])) for T in Ts],
